@@ -326,10 +326,24 @@ func (c *c04Case) val() string {
 func c04Script(r *rand.Rand, id int) *sScript {
 	g := &storeGenState{r: r, clock: storeBase + 3000*1e9, used: map[string]map[int64]bool{}, nodes: []string{storeRootID},
 		edges: map[string]bool{"root>" + storeRootID: true}, parents: map[string][]string{storeRootID: {"root"}}, kinds: map[string]int{}}
+	g.ties = true // acknowledged rewrites at an instant already used (other content, or only the fields no checksum covers)
 	g.createNode()
 	g.add("node-points", sOp{Kind: "np", Node: "n1", Points: g.batch("n1", 3)})
 	g.createNode()
 	g.mirror()
+	// an acknowledged rewrite that changes only what no checksum covers (tombstone counter, payload, author) at the
+	// instant of the point it rewrites, together with an ordinary update: one batch, all or nothing, and not lost
+	var first []sPoint
+	for _, o := range g.ops {
+		if o.Kind == "np" && o.Node == "n1" && len(o.Points) > 0 {
+			first = o.Points
+		}
+	}
+	if len(first) > 0 {
+		q := first[0]
+		q.Tomb, q.Data, q.Origin = q.Tomb+1, []byte{7, 0, 7}, "rewriter"
+		g.add("node-points-same-checksum", sOp{Kind: "np", Node: "n1", Points: append([]sPoint{q}, g.batch("n1", 1)...)})
+	}
 	for i := 0; i < 14+r.Intn(6); i++ {
 		n := g.pickNode()
 		if r.Intn(3) == 0 {
